@@ -1,20 +1,2 @@
 import Props.C08
 import Props.C18
-import Props.C12
-import Props.C01
-import Props.C02
-import Props.C03
-import Props.C04
-import Props.C05
-import Props.C06
-import Props.C07
-import Props.C09
-import Props.C10
-import Props.C11
-import Props.C13
-import Props.C14
-import Props.C15
-import Props.C16
-import Props.C17
-import Props.C19
-import Props.C20
